@@ -5,5 +5,8 @@ mod ray;
 
 pub use aabb::AABB;
 pub use bvh::{Bounded, Intersectable, BVH};
+// Verification hook (off by default): lets an external harness name the tree node type to dump a built tree
+#[cfg(feature = "cteenergymodel_verif")]
+pub use bvh::BVHNode;
 pub use ray::Ray;
 pub use occluder::Occluder;
